@@ -103,7 +103,7 @@ def main():
         try:
             runs.append(run_item(item, job, interner, classes, workdir))
         except Exception:
-            runs.append({"tid": item["tid"], "file": item.get("name", item.get("path")), "status": "machinery", "tb": traceback.format_exc(), "ev": [{"e": "End"}]})
+            runs.append({"tid": item["tid"], "file": item.get("name", item.get("path")), "status": "machinery", "tb": traceback.format_exc(), "ev": [{"e": "End"}], "texts": []})
     with open(job["out"], "w") as f:
         json.dump({"traces": runs}, f, separators=(",", ":"))
     with open(job["out"] + ".strings", "w") as f:
